@@ -1,9 +1,9 @@
 (* Extraction of the language-model executable model (shared by C01-C04, C08). ExtrOcamlBasic only. *)
 From Coq Require Import ZArith List Extraction ExtrOcamlBasic.
-From Kenlm Require Import LM.Defs LM.Query LM.Load LM.Chart LM.InvCheck LM.FlattenCheck C02.StateCmp C03.TrieLayout C03.TrieMem C03.TrieImage C03.ProbingImage C04.FileImage C04.VocabModel.
+From Kenlm Require Import LM.Defs LM.Query LM.Load LM.Chart LM.InvCheck LM.FlattenCheck C02.StateCmp C03.TrieLayout C03.TrieMem C03.TrieImage C03.ProbingImage C04.FileImage C04.VocabModel C04.TrieSize.
 Extraction Language OCaml.
 Extraction "extracted/c01_model.ml"
   alookup bo_score bo_length spec matched usable
   score_except_backoff full_score full_score_forgot get_state extend_left un_rest null_state
   load_probing load_trie eval_tree yield reveal_before reveal_after subsume tinv_check flat_hyp_check ext_ctx_check st_eq st_compare st_lt left_eq left_compare left_lt
-  trie_image trie_walk_check probing_image trie_file probing_file rest_file sorted_vocab_ids mid_pivot probing_vocab_ids.
+  trie_image trie_walk_check probing_image trie_file probing_file rest_file sorted_vocab_ids mid_pivot probing_vocab_ids trie_size sorted_vocab_size.
